@@ -1,6 +1,7 @@
 #include "libphysica/Linear_Algebra.hpp"
 
 #include <cmath>
+#include <limits>
 #include <numeric>
 
 #include "libphysica/Special_Functions.hpp"
@@ -1129,21 +1130,67 @@ std::vector<double> Eigenvalues(const Matrix& M)
 	std::exit(EXIT_FAILURE);
 }
 
+// Solves A x = b by Gaussian elimination with partial pivoting. A vanishing pivot is replaced by a tiny number, as appropriate for inverse iteration, where A is singular up to rounding errors.
+Vector Solve_Linear_System(Matrix A, Vector b)
+{
+	unsigned int N = A.Rows();
+	double tiny	   = std::numeric_limits<double>::epsilon() * A.Norm();
+	if(tiny == 0.0)
+		tiny = std::numeric_limits<double>::epsilon();
+	for(unsigned int i = 0; i < N; i++)
+	{
+		unsigned int pivot_row = i;
+		for(unsigned int j = i + 1; j < N; j++)
+			if(fabs(A[j][i]) > fabs(A[pivot_row][i]))
+				pivot_row = j;
+		if(pivot_row != i)
+		{
+			std::swap(A[i], A[pivot_row]);
+			std::swap(b[i], b[pivot_row]);
+		}
+		if(fabs(A[i][i]) < tiny)
+			A[i][i] = tiny;
+		for(unsigned int j = i + 1; j < N; j++)
+		{
+			double ratio = A[j][i] / A[i][i];
+			for(unsigned int k = i; k < N; k++)
+				A[j][k] -= ratio * A[i][k];
+			b[j] -= ratio * b[i];
+		}
+	}
+	Vector x(N, 0.0);
+	for(int i = N - 1; i >= 0; i--)
+	{
+		double sum = b[i];
+		for(unsigned int k = i + 1; k < N; k++)
+			sum -= A[i][k] * x[k];
+		x[i] = sum / A[i][i];
+	}
+	return x;
+}
+
 Vector Find_Eigenvector_Rayleigh(Matrix& M, double& eigenvalue)
 {
 	Vector b(M.Rows(), 1.0);
-	Matrix I	   = Identity_Matrix(M.Rows());
-	double epsilon = 1.0;
-	while(epsilon > 1.0e-10)
+	b.Normalize();
+	Matrix M_shifted		 = M - (eigenvalue * Identity_Matrix(M.Rows()));
+	const int max_iterations = 100;
+	double epsilon			 = 1.0;
+	// Inverse iteration
+	for(int iteration = 0; iteration < max_iterations && epsilon > 1.0e-10; iteration++)
 	{
 		Vector b_before = b;
-		b				= (M - (eigenvalue * I)).Inverse() * b;
+		b				= Solve_Linear_System(M_shifted, b);
 		b.Normalize();
-		eigenvalue = b * (M * b);
-		epsilon	   = 0.0;
-		for(unsigned int i = 0; i < b.Size(); i++)
-			epsilon += Relative_Difference(fabs(b[i]), fabs(b_before[i]));
+		// Convergence of the direction (the overall sign of b is arbitrary and may flip between iterations).
+		epsilon = std::min((b - b_before).Norm(), (b + b_before).Norm());
 	}
+	if(epsilon > 1.0e-10)
+	{
+		std::cerr << "Error in Find_Eigenvector_Rayleigh(): The inverse iteration did not converge in " << max_iterations << " steps." << std::endl;
+		std::exit(EXIT_FAILURE);
+	}
+	eigenvalue = b * (M * b);
 	return b;
 }
 
